@@ -84,11 +84,12 @@ type Ctx struct {
 	cache map[string]*RuleResult
 	lits  []*ast.CompositeLit
 	gwCache map[*ssa.Global]bool
+	evIndex map[ssa.Instruction][2]int // obligations decided by the abstract interpreter, per instruction
 
 	A *Anchors
 
 	// lazily built engines
-	kind *KindEngine
+	kind interface{}
 	own  *OwnEngine
 }
 
